@@ -7,7 +7,7 @@ use pgp::crypto::hash::HashAlgorithm;
 use pgp::crypto::sym::SymmetricKeyAlgorithm;
 use pgp::packet::{KeyFlags, Packet, PacketParser, Signature, SignatureConfig, SignatureType, Subpacket, SubpacketData};
 use pgp::ser::Serialize;
-use pgp::types::{Fingerprint, KeyDetails, KeyVersion, Password, Timestamp};
+use pgp::types::{KeyDetails, KeyVersion, Password, Timestamp};
 use rand::SeedableRng;
 use rand_chacha::ChaCha8Rng;
 
@@ -655,32 +655,55 @@ fn critical_case(t: &mut Tape, rec: &mut Rec) -> CaseResult {
     Ok(())
 }
 
+/// signature version x version octet of a hashed Issuer Fingerprint subpacket x fingerprint length x
+/// {alone, next to a correct issuer fingerprint}: the signatures are assembled by the reference
+/// (correct digest, valid Ed25519 value), because the signing API refuses such configurations
 fn issuer_fpr_version_case(t: &mut Tape, rec: &mut Rec) -> CaseResult {
-    let v6 = t.u64() & 1 == 1;
+    let idx = t.u64() as usize;
+    let v6 = idx & 1 == 1;
+    let octet = [3u8, 4, 5, 6][(idx >> 1) & 3];
+    let long = (idx >> 3) & 1 == 1;
+    let with_correct = (idx >> 4) & 1 == 1;
     let kind = if v6 { Kind::Ed25519V6 } else { Kind::Ed25519V4 };
     let z = zoo::get(kind);
-    let key = &z.secret.primary_key;
+    let sig_version = if v6 { 6u8 } else { 4 };
+    let real = z.public.primary_key.fingerprint();
+    let real_bytes = real.as_bytes().to_vec();
+    // the subpacket under test: the key's own fingerprint bytes where the length allows, else filler
+    let want_len = if long { 32 } else { 20 };
+    let fp_bytes: Vec<u8> = if real_bytes.len() == want_len { real_bytes.clone() } else { expand(idx as u64, want_len) };
+    let matching = octet == sig_version && fp_bytes == real_bytes;
     let data = b"issuer fingerprint version".to_vec();
-    let mut rng = ChaCha8Rng::seed_from_u64(11);
-    let mut cfg = if v6 { SignatureConfig::v6(&mut rng, SignatureType::Binary, key.algorithm(), HashAlgorithm::Sha256).map_err(|e| f("C15:config", e.to_string()))? } else { SignatureConfig::v4(SignatureType::Binary, key.algorithm(), HashAlgorithm::Sha256) };
-    // an issuer fingerprint subpacket of the *other* version (carrying the other zoo key's fingerprint)
-    let other = zoo::get(if v6 { Kind::Ed25519V4 } else { Kind::Ed25519V6 });
-    let ofp: Fingerprint = other.secret.primary_key.fingerprint();
-    cfg.hashed_subpackets = vec![Subpacket::regular(SubpacketData::SignatureCreationTime(Timestamp::from_secs(1_700_000_011))).unwrap(), Subpacket::regular(SubpacketData::IssuerFingerprint(ofp)).unwrap()];
-    rec.nontrivial(v6);
-    rec.describe(|| format!("v{} signature by {kind:?} whose hashed issuer-fingerprint subpacket has the other version", if v6 { 6 } else { 4 }));
-    let Ok(sig) = cfg.sign(key, &Password::empty(), &data[..]) else {
-        rec.label("sign-refused");
-        return Ok(());
+    let mut hashed = crate::refimpl::gen::subpacket(2, false, &1_700_000_011u32.to_be_bytes(), true);
+    hashed.extend_from_slice(&crate::refimpl::gen::subpacket(33, false, &[&[octet][..], &fp_bytes[..]].concat(), true));
+    if with_correct && !matching {
+        hashed.extend_from_slice(&crate::refimpl::gen::subpacket(33, false, &[&[sig_version][..], &real_bytes[..]].concat(), true));
+    }
+    rec.nontrivial(idx);
+    rec.label(if matching { "issuer-fpr:matching" } else { "issuer-fpr:mismatching-version-or-value" });
+    rec.describe(|| format!("v{sig_version} signature by {kind:?} with a hashed issuer fingerprint subpacket of version octet {octet} and {want_len} octets{}", if with_correct && !matching { ", followed by a correct one" } else { "" }));
+    let Some(pkt) = super::c11::reference_signature(kind, &hashed, &data, idx as u64) else {
+        return fail("C15:reference-signature", "could not assemble");
     };
-    let parsed = PacketParser::new(&wire::new_packet(2, &sig.to_bytes().unwrap())[..]).next();
+    let parsed = PacketParser::new(&pkt[..]).next();
     let Some(Ok(Packet::Signature(sig))) = parsed else {
         rec.label("rejected-by-parser");
+        if matching {
+            return fail("C15:matching-issuer-fingerprint-rejected", "parser");
+        }
         return Ok(());
     };
     let ok = verify_all_paths(&sig, kind, &data);
-    if ok.contains(&"Signature::verify") {
-        return fail("C15:issuer-fingerprint-version-mismatch-accepted", format!("v{} signature with a v{} issuer fingerprint accepted by {ok:?}", if v6 { 6 } else { 4 }, if v6 { 4 } else { 6 }));
+    if matching {
+        if !ok.contains(&"Signature::verify") {
+            return fail("C15:matching-issuer-fingerprint-rejected", format!("accepted only by {ok:?}"));
+        }
+        return Ok(());
+    }
+    // a version octet that differs from the signature version must be refused everywhere; a subpacket
+    // of the right version with foreign bytes is a mere hint mismatch and is judged by C02, not here
+    if octet != sig_version && !ok.is_empty() {
+        return fail("C15:issuer-fingerprint-version-mismatch-accepted", format!("v{sig_version} signature with a version-{octet} issuer fingerprint ({want_len} octets{}) accepted by {ok:?}", if with_correct { ", next to a correct one" } else { "" }));
     }
     Ok(())
 }
@@ -779,5 +802,5 @@ pub fn run(ctx: &Ctx) {
     let n = ctx.tier.pick(400u64, 6000);
     ctx.group("ops-vs-signature", Source::Random { n, tape_len: 64 }, ops_case);
     ctx.group("unknown-subpacket-criticality", Source::Indexed { count: 128 * 4 }, critical_case);
-    ctx.group("issuer-fingerprint-version", Source::Indexed { count: 2 }, issuer_fpr_version_case);
+    ctx.group("issuer-fingerprint-version", Source::Indexed { count: 32 }, issuer_fpr_version_case);
 }
